@@ -287,7 +287,16 @@ def work(t: Tmpl) -> Dict[str, Any]:
                 if not accepted:
                     e = p.exc
                     if not isinstance(e, PE):
-                        res["violations"].append(_viol(t, tm, vals, f"{type(e).__name__} escapes instead of a parser error: {e}", "escape", sc))
+                        # is it the compiler's or the engine's?  The witness through the real compiler under normal builtins
+                        with open(main, "w") as f:
+                            f.write(ctext)
+                        npo, npe = plain_outcome(ctext, filepath=main, traditional_mode=t.traditional)
+                        with open(main, "w") as f:
+                            f.write(text)
+                        if npo.startswith("!") and npo[1:] == type(e).__name__:
+                            res["violations"].append(_viol(t, tm, vals, f"{type(e).__name__} escapes instead of a parser error: {e}", "escape", sc))
+                        else:
+                            res["inconclusive"].append(f"{t.name}: {type(e).__name__} ({e}) in the symbolic run, {npo} natively for {vals}: an operation the engine does not model")
                     else:
                         want_file = sc.path(t.err_file) if t.err_file else main
                         lines = t.err_lines if t.err_lines is not None else tuple(hole_lines)
